@@ -363,7 +363,7 @@ Proof.
   - inversion H; subst. exists a. split; [reflexivity|]. split; [reflexivity|]. exact KT.
   - destruct (if esmtp sc then None else more).
     { inversion H; subst. apply (K [] 0%N); auto. }
-    destruct (match more with Some m => o_ext o m | None => Ext_ok 0 0 end) as [tb bonus| |].
+    destruct (match more with Some m => o_ext o m | None => Ext_ok 0 0 None end) as [tb bonus body8| |].
     2:{ inversion H; subst. apply (K [] 0%N); auto. }
     2:{ inversion H; subst. apply (K [] 0%N); auto. }
     destruct (Nat.ltb (CMD_LINE_MAX + bonus) len). { inversion H; subst. apply (K [] 0%N); auto. }
@@ -406,6 +406,39 @@ Qed.
 
 Lemma bytes_eqb_refl x : bytes_eqb x x = true.
 Proof. apply bytes_eqb_eq. reflexivity. Qed.
+
+(** the only reply codes the copy loops themselves decide on *)
+Lemma body_loop_reject fuel : forall dc r l msg sz seen code lr r',
+  body_loop fuel o dc r l msg sz seen = (D_reject code lr, r') -> code = 550%N \/ code = 554%N.
+Proof.
+  induction fuel as [|f IH]; intros dc r l msg sz seen code lr r' H; cbn [body_loop] in H; [discriminate|].
+  destruct (is_dot l || N.ltb (maxbytes o) sz). { unfold dfinal in H. destruct (N.ltb (maxbytes o) sz); discriminate. }
+  destruct (d_chk dc && negb (d_dt dc) && has8 l). { inversion H; auto. }
+  destruct (d_wfail dc); [discriminate|].
+  destruct (dread r l) as [[d0|l'] r1] eqn:Ed.
+  - inversion H; subst. unfold dread in Ed. destruct (net_read r) as [it rr]. destruct it; inversion Ed.
+  - eapply IH; exact H.
+Qed.
+
+Lemma hdr_loop_reject fuel : forall dc r l msg sz hops hf seen code lr r',
+  hdr_loop fuel o dc r l msg sz hops hf seen = (D_reject code lr, r') -> code = 550%N \/ code = 554%N.
+Proof.
+  induction fuel as [|f IH]; intros dc r l msg sz hops hf seen code lr r' H; cbn [hdr_loop] in H; [discriminate|].
+  destruct (is_dot l || N.ltb (maxbytes o) sz || Nat.eqb (length l) 0 || Nat.ltb MAXHOPS hops).
+  - destruct (d_chk dc && (N.eqb (N.land hf 1) 0 || N.eqb (N.land hf 2) 0)). { inversion H; auto. }
+    destruct l as [|b t].
+    + destruct (d_wfail dc); [discriminate|]. destruct (dread r []) as [[d0|l'] r1] eqn:Ed.
+      * inversion H; subst. unfold dread in Ed. destruct (net_read r) as [it rr]. destruct it; inversion Ed.
+      * eapply body_loop_reject; exact H.
+    + unfold dfinal in H. destruct (N.ltb (maxbytes o) sz); discriminate.
+  - destruct (if N.eqb (nth 0 l 0%N) DOT then Some (hf, false) else hdr_check dc hf l) as [[hf' flagr]|]. 2:{ inversion H; auto. }
+    match type of H with context [if ?c then (D_loop l seen, r) else _] => destruct c end; [discriminate|].
+    match type of H with context [if ?c then (D_reject 554 l, r) else _] => destruct c end. { inversion H; auto. }
+    destruct (d_wfail dc); [discriminate|].
+    destruct (dread r l) as [[d0|l'] r1] eqn:Ed.
+    + inversion H; subst. unfold dread in Ed. destruct (net_read r) as [it rr]. destruct it; inversion Ed.
+    + eapply IH; exact H.
+Qed.
 
 (** result of DATA: the trace is accepted; the queue checker ends idle, or "failed, closing
     reply still to come" exactly for the two outcomes whose reply is written by smtploop *)
@@ -465,7 +498,7 @@ Proof.
             Irel (relayclient sf) /\ comstate sf = helo_state (esmtp sf)
             /\ Rc (comstate sf) (mailfrom sf) (rcpts sf) (rcptcount sf) (goodrcpt sf) ab).
   { exact (Hfree r'). }
-  destruct de as [msg sz seen|l seen|l seen|big l|lw| |].
+  destruct de as [msg sz seen|l seen|l seen|big l|lw|code lr| |].
   - (* end of data *)
     destruct Hfree1 as (HIf & Hcf & HRf).
     assert (Hho : trace_step o (Handoff (envelope (o_liphost o) (mailfrom (set_rd sq r')) (rcpts (set_rd sq r'))) msg) a = Some a).
@@ -517,6 +550,19 @@ Proof.
     destruct alive; cbn [negb] in H; inversion H; subst evs h s'; clear H.
     + exists ab. split; [cbn [trace_run trace_step]; rewrite Htxn, Ers, Hphr; reflexivity|].
       split; [exact HIf|]. split; [reflexivity|exact HRf].
+    + exists a. split; [exact Htr1|]. split; [cbn [set_rd relayclient sq]; now rewrite G8|].
+      simpl. discriminate.
+  - (* refused by a header check or as a Delivered-To: loop *)
+    destruct (drain f r' lr) as [alive r2]. destruct (Hfree r2) as (HIf & Hcf & HRf).
+    destruct alive; inversion H; subst evs h s'; clear H.
+    + exists ab. split; [cbn [trace_run trace_step]; rewrite Htxn, Ers, Hphr; reflexivity|].
+      split; [exact HIf|].
+      assert (Hc400 : (400 <=? code)%N = true).
+      { (* the only codes the loops produce *)
+        clear -Edl. unfold data_loop in Edl. destruct (dread (rd sq) []) as [[d0|l0] r1] eqn:Ed.
+        - inversion Edl; subst. unfold dread in Ed. destruct (net_read (rd sq)) as [it rr]. destruct it; inversion Ed.
+        - apply hdr_loop_reject in Edl. destruct Edl as [->| ->]; reflexivity. }
+      split; [simpl; rewrite Hc400; reflexivity|exact HRf].
     + exists a. split; [exact Htr1|]. split; [cbn [set_rd relayclient sq]; now rewrite G8|].
       simpl. discriminate.
   - inversion H; subst evs h s'; clear H.
@@ -827,7 +873,7 @@ Proof.
   unfold h_from. intros H.
   destruct (o_addr o false arg) as [| | |addr more cls]; try discriminate.
   match type of H with context [if ?b then None else more] => destruct (if b then None else more) end; try discriminate.
-  destruct (match more with Some m => o_ext o m | None => Ext_ok 0 0 end) as [tb bonus| |]; try discriminate.
+  destruct (match more with Some m => o_ext o m | None => Ext_ok 0 0 None end) as [tb bonus body8| |]; try discriminate.
   destruct (Nat.ltb (CMD_LINE_MAX + bonus) len); try discriminate.
   destruct (negb (N.eqb (o_databytes o) 0) && N.ltb (o_databytes o) tb) eqn:E; try discriminate.
   inversion H; subst. cbn.
